@@ -551,10 +551,12 @@ def _w0(fn):
 ORACLES = {"udp_layout": _w0(check_udp_layout), "ch11_layout": _w0(check_ch11_layout), "ch11_flags": check_ch11_flags,
            "ch11_repack": check_ch11_repack}
 
+# The deprecated subclass `Chapter10` is NOT enrolled here: it would only duplicate every Chapter11 result of the
+# generic C08/C13/C14 checks (including the K5 finding).  It runs through corr_C03 / corr_C13 / corr_C14 / corr_C19
+# below and through the C19 oracle `chapter10_same`.
 CLASSGEN = {
     "Chapter10UDP": ClassGen("Chapter10UDP", udp_valid, length_fields=[(5, 3, "big")], alt=udp_alt),
     "Chapter11": ClassGen("Chapter11", ch11_valid, length_fields=[(4, 4, "little"), (8, 4, "little")], alt=ch11_alt),
-    "Chapter10": ClassGen("Chapter10", ch11_valid, length_fields=[(4, 4, "little"), (8, 4, "little")], alt=ch11_alt),
     "PTPTime": ClassGen("PTPTime", ptp_valid),
     "RTCTime": ClassGen("RTCTime", rtc_valid),
 }
@@ -1322,6 +1324,8 @@ def oracles_C13(ctx, hints):
     from .. import generic
     fails, n = [], 0
     for cls, ops, final in _c13_cases(ctx):
+        if cls not in CLASSGEN:              # Chapter10: correspondence only (see the note above CLASSGEN)
+            continue
         args = {"cls": cls, "opts": [], "ops": ops, "final": [final]}
         n += 1
         w = generic.check_history_independence(args)
